@@ -7,11 +7,13 @@ From Coq Require Import Permutation Sorting.Sorted.
 From RV Require Import Modifiers.Model Modifiers.Order Modifiers.Post Modifiers.Agg
                        Modifiers.Proofs Modifiers.Readings Modifiers.PromoModel Modifiers.PromoProofs.
 
-(* The tie between model and checker: on every well-formed case outside the
-   regions of the five known findings the rows the model computes (aggregation
-   stage, query without slice, query) are accepted by the specification
-   checker that the correspondence run applies to rdflib's rows. *)
-Theorem C08_spec_ok_model : forall c, wf c = true -> kf c = 0%N -> spec_ok c (model_obs c) = true.
+(* The tie between model and checker: on every well-formed case the rows the
+   model computes (aggregation stage, query without slice, query) are accepted
+   by the specification checker that the correspondence run applies to
+   rdflib's rows.  No trigger hypothesis: the defects F-C08a,b,c,d,g have been
+   repaired in the code (commits 0ada73ff, cdcdb849, bd5db65a, 127411f7) and
+   the model follows the repaired code. *)
+Theorem C08_spec_ok_model : forall c, wf c = true -> spec_ok c (model_obs c) = true.
 Proof. exact spec_ok_model. Qed.
 Print Assumptions C08_spec_ok_model.
 
@@ -92,9 +94,10 @@ Proof. exact group_partition. Qed.
 Print Assumptions C08_group_partition.
 
 (* Every accumulator returns an admissible value of its aggregate over the
-   rows it was fed, outside the regions of findings F-C08a..d. *)
-Theorem C08_accumulators : forall a m o,
-  agg_safe a m -> ext_safe a m -> agg_run a m = Some o -> agg_adm a m o = true.
+   rows it was fed: all seven kinds, with and without DISTINCT, unbound and
+   non-numeric members included (the error case "non-numeric member => unbound
+   for that group" is part of the statement, see C08_sum / C08_avg). *)
+Theorem C08_accumulators : forall a m, agg_adm a m (agg_run a m) = true.
 Proof. exact agg_run_adm. Qed.
 Print Assumptions C08_accumulators.
 
@@ -173,10 +176,23 @@ Print Assumptions C08_concat.
 
 (* The rows of the aggregation stage: one row per group that passes HAVING
    (without GROUP BY the single group of all solutions, also when there are
-   none; with GROUP BY no row when there is no solution), carrying an
-   admissible value of every aggregate over exactly the members of its group. *)
-Theorem C08_agg_rows : forall c gv a,
+   none), carrying an admissible value of every aggregate over exactly the
+   members of its group.  For GROUP BY over NO solutions the checker accepts
+   both no row (algebra, 18.5) and one row with nothing bound (W3C test
+   aggregates/agg-empty-group). *)
+Theorem C08_agg_cases : forall c gv a,
   c_group c = Some gv -> agg_ok c a = true ->
+  (gv <> [] /\ c_input c = [] /\ (a = [] \/ a = [[]])) \/ agg_ok_groups c gv a = true.
+Proof. exact agg_ok_cases. Qed.
+Print Assumptions C08_agg_cases.
+
+Theorem C08_group_by_empty_both_accepted : forall c g0 gv',
+  c_group c = Some (g0 :: gv') -> c_input c = [] -> agg_ok c [] = true /\ agg_ok c [[]] = true.
+Proof. exact agg_ok_empty_both. Qed.
+Print Assumptions C08_group_by_empty_both_accepted.
+
+Theorem C08_agg_rows : forall c gv a,
+  agg_ok_groups c gv a = true ->
   let input := c_input c in
   NoDup (map (key_of gv) a)
   /\ (forall k, In k (map (key_of gv) a) <->
@@ -190,7 +206,7 @@ Proof. exact agg_ok_reading. Qed.
 Print Assumptions C08_agg_rows.
 
 Theorem C08_having : forall c gv a k,
-  c_group c = Some gv -> agg_ok c a = true ->
+  agg_ok_groups c gv a = true ->
   In k (map (key_of gv) a) -> having_holds (c_having c) (members gv k (c_input c)) = true.
 Proof. exact having_reading. Qed.
 Print Assumptions C08_having.
@@ -232,7 +248,7 @@ Proof. exact dt_fold_lattice. Qed.
 Print Assumptions C08_sum_avg_datatype.
 
 (* tie for the promotion suite (float/double members; values only up to a tolerance) *)
-Theorem C08_promotion_spec_model : forall c, pwf c = true -> pkf c = 0%N -> pspec c (pmodel c) = true.
+Theorem C08_promotion_spec_model : forall c, pwf c = true -> pspec c (pmodel c) = true.
 Proof. exact pspec_model. Qed.
 Print Assumptions C08_promotion_spec_model.
 
@@ -242,81 +258,53 @@ Theorem C08_promotion_spec_reading : forall c d v,
 Proof. exact pspec_reading. Qed.
 Print Assumptions C08_promotion_spec_reading.
 
-(* F-C08g: AVG over xsd:float members answers an xsd:double *)
-Theorem C08_avg_float_refuted :
-  exists c, pwf c = true /\ pkf c = 1%N /\ pmodel c = PVal 3 (3, 2)%Z /\ pspec c (pmodel c) = false.
-Proof. exact avg_float_refuted. Qed.
-Print Assumptions C08_avg_float_refuted.
+(* remark: what the code answered before commit bd5db65a (xsd:double for AVG over xsd:float) is
+   rejected by the checker; the repaired code answers xsd:float *)
+Theorem C08_hist_avg_float_double_rejected :
+  pspec {| p_avg := true; p_vals := [(2%N, (3, 2)%Z)] |} (PVal 3 (3, 2)%Z) = false
+  /\ pmodel {| p_avg := true; p_vals := [(2%N, (3, 2)%Z)] |} = PVal 2 (3, 2)%Z.
+Proof. exact avg_float_double_rejected. Qed.
+Print Assumptions C08_hist_avg_float_double_rejected.
 
-(* The model's aggregation stage satisfies that checker (no finding region). *)
-Theorem C08_agg_stage_model : forall c,
-  wf c = true -> kf c = 0%N -> exists a, agg_stage c = Some a /\ agg_ok c a = true.
+(* The model's aggregation stage satisfies that checker. *)
+Theorem C08_agg_stage_model : forall c, wf c = true -> agg_ok c (agg_stage c) = true.
 Proof. exact agg_ok_model. Qed.
 Print Assumptions C08_agg_stage_model.
 
 (* ------------------------------------------------------------------ *)
-(* Without the hypothesis kf c = 0 the statement is false of the code as it
-   is; one witness per finding (each replayed on rdflib, corpus/C08). *)
+(* The witnesses of the repaired findings now pass (each is also a corpus case replayed on
+   rdflib), and the answers of the historical code are rejected by the checker. *)
 Definition ia : term := TI [97%N].
 Definition ib : term := TI [98%N].
 Definition mk (inp : list sol) (gv : list var) (a : aggspec) : case :=
   {| c_input := inp; c_group := Some gv; c_aggs := [(10%N, a)]; c_having := None;
      c_order := []; c_proj := Some (gv ++ [10%N]); c_distinct := false; c_slice := None |}.
 Definition ag k d v := {| a_kind := k; a_distinct := d; a_arg := Some v |}.
+Definition w_mixed : list sol := [[(0, ia); (2, TInt 1)]; [(0, ia); (2, TStr [120])]]%N.
 
-(* F-C08a: SUM over {1, "x"} raises *)
-Theorem C08_sum_nonnumeric_refuted :
-  exists c, wf c = true /\ kf c = 1%N /\ model_obs c = OErr /\ spec_ok c (model_obs c) = false.
-Proof.
-  exists (mk [[(0, ia); (2, TInt 1)]; [(0, ia); (2, TStr [120])]]%N [0%N] (ag ASum false 2%N)).
-  vm_compute. repeat split.
-Qed.
-Print Assumptions C08_sum_nonnumeric_refuted.
+(* SUM / AVG over {1, "x"}: unbound for that group (was: exception / 1) *)
+Example C08_witness_sum_avg_nonnumeric :
+  model_obs (mk w_mixed [0%N] (ag ASum false 2%N)) = ORows [[(0%N, ia)]] [[(0%N, ia)]] [[(0%N, ia)]]
+  /\ model_obs (mk w_mixed [0%N] (ag AAvg false 2%N)) = ORows [[(0%N, ia)]] [[(0%N, ia)]] [[(0%N, ia)]]
+  /\ agg_adm (ag AAvg false 2%N) w_mixed (Some (TDec 1 0)) = false.
+Proof. vm_compute. repeat split. Qed.
 
-(* F-C08b: AVG over {1, "x"} answers 1 *)
-Theorem C08_avg_nonnumeric_refuted :
-  exists c, wf c = true /\ kf c = 2%N /\ spec_ok c (model_obs c) = false
-            /\ model_obs c = ORows [[(0, ia); (10, TDec 1 0)]]%N [[(0, ia); (10, TDec 1 0)]]%N
-                                   [[(0, ia); (10, TDec 1 0)]]%N.
-Proof.
-  exists (mk [[(0, ia); (2, TInt 1)]; [(0, ia); (2, TStr [120])]]%N [0%N] (ag AAvg false 2%N)).
-  vm_compute. repeat split.
-Qed.
-Print Assumptions C08_avg_nonnumeric_refuted.
+(* MIN over {<b>}: the IRI itself (was: the plain literal "b") *)
+Example C08_witness_min_iri :
+  model_obs (mk [[(0, ia); (2, ib)]]%N [0%N] (ag AMin false 2%N))
+    = ORows [[(0, ia); (10, ib)]]%N [[(0, ia); (10, ib)]]%N [[(0, ia); (10, ib)]]%N
+  /\ agg_adm (ag AMin false 2%N) [[(0, ia); (2, ib)]]%N (option_map as_literal (Some ib)) = false.
+Proof. vm_compute. repeat split. Qed.
 
-(* F-C08c: MIN over {<b>} answers the plain literal "b" *)
-Theorem C08_min_iri_refuted :
-  exists c, wf c = true /\ kf c = 3%N /\ spec_ok c (model_obs c) = false
-            /\ model_obs c = ORows [[(0, ia); (10, TStr [98])]]%N [[(0, ia); (10, TStr [98])]]%N
-                                   [[(0, ia); (10, TStr [98])]]%N.
-Proof.
-  exists (mk [[(0, ia); (2, ib)]]%N [0%N] (ag AMin false 2%N)).
-  vm_compute. repeat split.
-Qed.
-Print Assumptions C08_min_iri_refuted.
-
-(* F-C08d: SUM(DISTINCT ?v3) with ?v3 unbound raises *)
-Theorem C08_distinct_unbound_refuted :
-  exists c, wf c = true /\ kf c = 4%N /\ model_obs c = OErr /\ spec_ok c (model_obs c) = false.
-Proof.
-  exists (mk [[(0, ia); (2, TInt 1)]]%N [0%N] (ag ASum true 3%N)).
-  vm_compute. repeat split.
-Qed.
-Print Assumptions C08_distinct_unbound_refuted.
-
-(* F-C08e: GROUP BY over no solutions answers one empty row *)
-Theorem C08_group_empty_refuted :
-  exists c, wf c = true /\ kf c = 5%N /\ spec_ok c (model_obs c) = false
-            /\ model_obs c = ORows [[]] [[]] [[]].
-Proof.
-  exists (mk [] [0%N] {| a_kind := ACount; a_distinct := false; a_arg := None |}).
-  vm_compute. repeat split.
-Qed.
-Print Assumptions C08_group_empty_refuted.
+(* SUM(DISTINCT ?v3) with ?v3 unbound: 0 (was: NotBoundError) *)
+Example C08_witness_distinct_unbound :
+  model_obs (mk [[(0, ia); (2, TInt 1)]]%N [0%N] (ag ASum true 3%N))
+    = ORows [[(0, ia); (10, TInt 0)]]%N [[(0, ia); (10, TInt 0)]]%N [[(0, ia); (10, TInt 0)]]%N.
+Proof. vm_compute. reflexivity. Qed.
 
 (* non-vacuity: GROUP BY ?v0 with COUNT, SUM over integers and a decimal, AVG,
    GROUP_CONCAT(DISTINCT), HAVING, ORDER BY DESC on an alias then ASC on the
-   key, DISTINCT, LIMIT 2 OFFSET 1: no trigger, accepted, rows come out *)
+   key, DISTINCT, LIMIT 2 OFFSET 1: accepted, rows come out *)
 Example C08_nonvacuous :
   let inp := [[(0, ia); (2, TInt 1)]; [(0, ib); (2, TInt 2)]; [(0, ia); (2, TDec 15 1)];
               [(0, TB [99]); (2, TInt 2)]; [(0, ib); (2, TInt 2)]; [(0, ia); (2, TInt 1); (3, TStr [120])]]%N in
@@ -326,7 +314,7 @@ Example C08_nonvacuous :
               c_having := Some (HAgg {| a_kind := ACount; a_distinct := false; a_arg := None |} OpGe 1%Z);
               c_order := [(true, 10%N); (false, 0%N)]; c_proj := Some [0; 10; 11; 12; 13]%N;
               c_distinct := true; c_slice := Some (1, Some 2) |} in
-  wf c = true /\ kf c = 0%N /\ spec_ok c (model_obs c) = true
+  wf c = true /\ spec_ok c (model_obs c) = true
   /\ model_obs c =
      ORows [[(0, ia); (10, TInt 3); (11, TDec 35 1); (12, TDec 1166666666666666666666666667 27); (13, TStr [49; 44; 49; 46; 53])];
             [(0, ib); (10, TInt 2); (11, TInt 4); (12, TDec 2 0); (13, TStr [50])];
